@@ -130,10 +130,11 @@ def run(rep, tier):
         def wit(m, layout=layout):
             return "".join(chr(m.eval(c, model_completion=True).as_long()) for c in PIO.render_format(layout, m.eval(y, True), m.eval(n, True)))
 
-        def rp(cell, ind=ind):
+        def rp(cell, ind=ind, layout=layout):
             (rn, rok), = PIO.real_normalize([cell])
             acc_real, det = PIO.real_loader_accepts(cell)
-            return (isinstance(rn, tuple) or not rok or acc_real is not True or not _denotes(rn, cell, ind)), "normalize -> %r, pattern %s, run(): %s" % (rn, rok, det)
+            want = _canon_of(cell, layout, ind)
+            return (isinstance(rn, tuple) or not rok or acc_real is not True or rn != want), "normalize -> %r (canonical: %r), pattern %s, run(): %s" % (rn, want, rok, det)
         decide("input:%s" % name, "every valid period written as %s is accepted by the loader and normalised to its canonical spelling" % name,
                cons + [z3.Not(good)], wit, rp, lambda w, d, name=name: ("C21:input:%s" % name, "documented spelling %s of a valid period is rejected or denotes another period: %r (%s)" % (name, w, d)))
     # YYYY-MM-DD
@@ -230,6 +231,21 @@ def _solve_job(oid):
 def PIO_render(y, ind, n):
     from vt.sqlsmt.harness import render_tp
     return render_tp(y, ind, n)
+
+
+def _canon_of(cell, layout, ind):
+    """canonical internal spelling of a cell written in `layout` (python side of PIO.canonical_chars)"""
+    pos, y, n = 0, None, 1
+    for x in layout:
+        if x == "Y":
+            y = int(cell[pos:pos + 4])
+            pos += 4
+        elif isinstance(x, tuple):
+            n = int(cell[pos:pos + x[1]])
+            pos += x[1]
+        else:
+            pos += 1
+    return "%04dA" % y if ind == "A" else "%04d-%s%0*d" % (y, ind, PIO.WIDTH[ind], n)
 
 
 def _denotes(normalised, cell, ind):
